@@ -1017,7 +1017,7 @@ Proof.
   apply bytes_in_range; [lia|exact HF].
 Qed.
 
-(* reading the first rune back (for contents without the byte '\') *)
+(* reading the first rune back: every '\' of the output starts a 6-character escape *)
 Definition unhex (c : N) : N := if (c <? 58)%N then (c - 48)%N else (c - 87)%N.
 Definition unrender_head (out : list N) : option (N * list N) :=
   match out with
@@ -1035,53 +1035,37 @@ Definition unrender_head (out : list N) : option (N * list N) :=
            end
   end.
 
-Lemma unrender_head_rune : forall x, (x < 256)%N -> x <> 92%N ->
+Lemma unrender_head_rune : forall x, (x < 256)%N ->
   forall rest, unrender_head (string_rune (Z.of_N x) ++ rest) = Some (x, rest).
 Proof.
-  assert (H : Forall (fun x => x <> 92%N -> forall rest,
+  assert (H : Forall (fun x => forall rest,
                         unrender_head (string_rune (Z.of_N x) ++ rest) = Some (x, rest))
                      (map N.of_nat (seq 0 256))).
   { cbv [seq map N.of_nat Pos.of_succ_nat Pos.succ].
-    repeat (constructor; [intros Hne rest; try reflexivity; exfalso; apply Hne; reflexivity|]). constructor. }
-  intros x Hx Hne. rewrite Forall_forall in H. apply H; [|exact Hne].
+    repeat (constructor; [intros rest; reflexivity|]). constructor. }
+  intros x Hx. rewrite Forall_forall in H. apply H.
   rewrite <- (N2Nat.id x). apply in_map. apply in_seq. lia.
 Qed.
 
-(* LOSSLESS where no byte is a backslash: every two byte contents (of any
-   lengths) without the byte 0x5c that render to the same Go string are equal *)
+(* LOSSLESS: every two byte contents (of any lengths, any bytes) that render
+   to the same Go string are equal *)
 Lemma render_injective : forall l1 l2,
   Forall (fun x => (x < 256)%N) l1 -> Forall (fun x => (x < 256)%N) l2 ->
-  ~ In 92%N l1 -> ~ In 92%N l2 -> render l1 = render l2 -> l1 = l2.
+  render l1 = render l2 -> l1 = l2.
 Proof.
-  induction l1 as [|x l1 IH]; intros [|y l2] H1 H2 N1 N2 E.
+  induction l1 as [|x l1 IH]; intros [|y l2] H1 H2 E.
   - reflexivity.
   - exfalso. inversion H2; subst. unfold render in E. cbn [flat_map] in E.
-    pose proof (unrender_head_rune y ltac:(assumption) ltac:(intros ->; apply N2; left; reflexivity) (render l2)) as Hy.
+    pose proof (unrender_head_rune y ltac:(assumption) (render l2)) as Hy.
     unfold render in Hy. rewrite <- E in Hy. discriminate.
   - exfalso. inversion H1; subst. unfold render in E. cbn [flat_map] in E.
-    pose proof (unrender_head_rune x ltac:(assumption) ltac:(intros ->; apply N1; left; reflexivity) (render l1)) as Hx.
+    pose proof (unrender_head_rune x ltac:(assumption) (render l1)) as Hx.
     unfold render in Hx. rewrite E in Hx. discriminate.
   - inversion H1; inversion H2; subst.
-    pose proof (unrender_head_rune x ltac:(assumption) ltac:(intros ->; apply N1; left; reflexivity) (render l1)) as Hx.
-    pose proof (unrender_head_rune y ltac:(assumption) ltac:(intros ->; apply N2; left; reflexivity) (render l2)) as Hy.
+    pose proof (unrender_head_rune x ltac:(assumption) (render l1)) as Hx.
+    pose proof (unrender_head_rune y ltac:(assumption) (render l2)) as Hy.
     unfold render in *. cbn [flat_map] in E. rewrite E in Hx. rewrite Hx in Hy. inversion Hy; subst.
-    f_equal. apply IH; try assumption.
-    + intros Hin. apply N1. right. exact Hin.
-    + intros Hin. apply N2. right. exact Hin.
-Qed.
-
-(* … but NOT in general: Result does not escape the backslash itself, so the 7
-   bytes  \ u 0 0 0 0 NUL  and  NUL \ u 0 0 0 0  (both string56) give the same
-   Go string "\u0000\u0000" from different wire values *)
-Lemma render_not_injective :
-  exists l1 l2, length l1 = length l2 /\ Forall (fun x => (x < 256)%N) l1 /\ Forall (fun x => (x < 256)%N) l2 /\
-    str_value l1 <> str_value l2 /\
-    map_fst (result (info_of (TyString (length l1 * 8))) (str_value l1))
-    = map_fst (result (info_of (TyString (length l2 * 8))) (str_value l2)).
-Proof.
-  exists [92; 117; 48; 48; 48; 48; 0]%N, [0; 92; 117; 48; 48; 48; 48]%N.
-  split; [reflexivity|]. split; [repeat constructor|]. split; [repeat constructor|].
-  split; [vm_compute; discriminate | vm_compute; reflexivity].
+    f_equal. apply IH; assumption.
 Qed.
 
 Example ex_result_string :
@@ -1089,14 +1073,20 @@ Example ex_result_string :
   = Ok (OStr [97; 92; 117; 48; 48; 48; 48; 195; 169]%N, str_value [97; 0; 233]%N).   (* "a\u0000é" *)
 Proof. vm_compute. reflexivity. Qed.
 
-(* at the level of Result: two contents without a backslash that decode to the same Go string are the same content *)
-Lemma result_string_lossless_partial l1 l2 :
+(* at the level of Result: two contents (any bytes, the backslash included)
+   that decode to the same Go string are the same content *)
+Lemma result_string_lossless l1 l2 :
   Forall (fun x => (x < 256)%N) l1 -> Forall (fun x => (x < 256)%N) l2 ->
-  ~ In 92%N l1 -> ~ In 92%N l2 ->
   map_fst (result (info_of (TyString (length l1 * 8))) (str_value l1))
   = map_fst (result (info_of (TyString (length l2 * 8))) (str_value l2)) ->
   l1 = l2.
 Proof.
-  intros H1 H2 N1 N2 E. rewrite (result_string l1 H1), (result_string l2 H2) in E. simpl in E.
+  intros H1 H2 E. rewrite (result_string l1 H1), (result_string l2 H2) in E. simpl in E.
   inversion E. apply render_injective; assumption.
 Qed.
+
+(* the former F44 pair: now two different Go strings *)
+Example ex_backslash_pair :
+  map_fst (result (info_of (TyString 56)) (str_value [92; 117; 48; 48; 48; 48; 0]%N))
+  <> map_fst (result (info_of (TyString 56)) (str_value [0; 92; 117; 48; 48; 48; 48]%N)).
+Proof. vm_compute. discriminate. Qed.
